@@ -542,7 +542,11 @@ func fieldOptsOverride(opts *options, fieldName string, idx int) (*options, Erro
 		// Only return a new `options` when arriving at new nested child. This
 		// combined with optimizations in `includeWildcard` will ensure that only
 		// a new opts will be created and returned when absolutely required.
-		if child != nil && opts.fieldHandlingTree != child {
+		// A named field the tree does not mention leaves the tree behind (child == nil),
+		// so that deeper settings which merely share a name with an entry at this level
+		// are not matched. List levels stay transparent: the "*" probe of mergeConfigArr
+		// and an index the tree does not mention keep the current tree.
+		if opts.fieldHandlingTree != child && (child != nil || (idx < 0 && fieldName != "*")) {
 			newOpts := *opts
 			newOpts.fieldHandlingTree = child
 			opts = &newOpts
